@@ -52,6 +52,8 @@ GROUP = st.fixed_dictionaries({
     "nodes": OPT(st.integers(1, 9)), "ntasks": OPT(st.integers(1, 9)), "ntasks_per_node": OPT(st.integers(1, 36)),
     "name": st.from_regex(r"[A-Za-z0-9_]{1,12}_batch_[0-9]{1,3}", fullmatch=True),
     "nproc": OPT(st.integers(1, 36)), "dsub": st.booleans(), "verbose": st.booleans(),
+    # a submitter hands 1-3 batches of the group to the scheduler through the same manager object
+    "batches": st.integers(1, 3),
 })
 script_cases = st.fixed_dictionaries({"kind": st.just("script"), "groups": st.lists(GROUP, min_size=1, max_size=3)})
 
@@ -136,17 +138,19 @@ def run_script_case(case, res):
             return
         nset_max = 0
         sample = []
-        for gi, g in enumerate(case["groups"]):
+        for gi, bi, g in [(gi, bi, g) for gi, g in enumerate(case["groups"]) for bi in range(g.get("batches", 1))]:
             group = cluster.config.submission_groups[gi]
-            name = g["name"]
+            name = g["name"] + ("" if bi == 0 else f"x{bi}")
             run_script = os.path.join(out, f"run_{name}_{gi}.sh")
-            cfgfile = os.path.join(out, f"config_batch_{gi + 1}.json")
+            cfgfile = os.path.join(out, f"config_batch_{gi + 1}_{bi}.json")
             try:
                 hs._create_run_script(cfgfile, run_script, group)
                 job_id, status = hs._hpc_mgr.submit(out, f"{name}{gi}", run_script, group.name, dry_run=True)
             except Exception as e:  # noqa: BLE001
                 v.append(D.viol(f"C18:script-generation-raised|{type(e).__name__}", f"group g{gi}: {type(e).__name__}: {str(e)[:300]}"))
                 continue
+            if bi:
+                res["classes"].append("script_nth_batch_of_group")
             filename = os.path.join(out, f"{name}{gi}.sh")
             lines = open(filename).read().splitlines()
             opts = {}
